@@ -94,7 +94,9 @@ class RT:
     __slots__ = ("table", "enc", "selfies", "dec", "smiles_out", "mol", "fail", "skipped")
 
 
-def roundtrip(case, strict=True):
+def roundtrip(case, strict=None):
+    if strict is None:
+        strict = bool(case.get("strict", True))
     rt = RT()
     rt.fail = rt.skipped = rt.mol = rt.selfies = rt.smiles_out = None
     rt.table = O.use_table(case["table"])
